@@ -50,3 +50,14 @@ Definition wire_exec (tbl : list (bytes * bytes)) (m0 : list (bytes * bytes))
   let o := serve_input (gmap bytes bytes) wreq wreply (dec_lookup dec) is_bye content_len
              (fun t r c => Some (seq_handle (fun x => x) (hub_cname tbl) t r c)) inp (list_to_map m0) in
   (o_exit _ _ o, o_replies _ _ o, map_to_list (o_tree _ _ o), o_allocs _ _ o).
+
+(** ** Executable instance of hub-sync runs (Model/HubClient.v) *)
+From Copia Require Import Model.HubClient.
+
+Definition hidden_bytes (p : bytes) : bool := HubSeq.hidden p.
+
+(** a run: listing taken on [tl] (= the tree itself unless stale), Puts executed on [t] *)
+Definition sync_exec (tbl : list (bytes * bytes)) (tl t : list (bytes * bytes)) (local : list (bytes * bytes))
+  : list (bytes * bytes) * nat * nat * nat :=
+  let r := hub_sync_from (fun x => x) (hub_cname tbl) hidden_bytes (list_to_map tl) (list_to_map t) local in
+  (map_to_list (sr_tree r), sr_sent r, sr_skipped r, sr_conflicts r).
